@@ -516,5 +516,7 @@ def run(ctx):
     rule_R2_R3_R4(ctx)
     rule_R8(ctx)
     rule_R9(ctx)
+    from . import _narrow as N
+    N.narrowing_preserved(ctx, ctx.program, "R9", ("huginn_net_tls",))
     rule_R5_R6_R7(ctx)
     rule_extract(ctx)
